@@ -346,3 +346,5 @@ def run(chk, facts, tier):
     # pre-parse cache; its ownership / replace-on-register discipline is shared with C19
     from rules import C19 as c19
     c19.cache_ownership(chk, facts)
+    from rules import shared_getters
+    shared_getters.check(chk, facts, "C01.GETTER", ["cedar_policy_core::authorizer::", "cedar_policy::api::"], 20)
